@@ -97,7 +97,17 @@ func gen(rt *rapid.T) plan {
 			total += 5 + m
 		}
 		if rapid.IntRange(0, 9).Draw(rt, "has_buflimit") >= 8 {
-			r.BufLimit = rapid.IntRange(1, total+8).Draw(rt, "buflimit")
+			if len(r.Msgs) > 0 && rapid.IntRange(0, 3).Draw(rt, "buflimit_boundary") < 3 {
+				// exactly at / one off the cumulative size of the first k messages
+				k := rapid.IntRange(1, len(r.Msgs)).Draw(rt, "buflimit_k")
+				c := 0
+				for _, m := range r.Msgs[:k] {
+					c += 5 + m
+				}
+				r.BufLimit = max(1, c+rapid.IntRange(-1, 1).Draw(rt, "buflimit_delta"))
+			} else {
+				r.BufLimit = rapid.IntRange(1, total+8).Draw(rt, "buflimit")
+			}
 		}
 		maxA := 6
 		if pol != nil {
@@ -360,6 +370,9 @@ func run(t *testing.T, pl plan) vk.Result {
 			}
 			commitMust := cum(sentLo) > limit
 			commitMay := cum(sentHi) > limit
+			if rp.BufLimit > 0 && !commitMay && cum(sentHi) == limit && sc.Kind == rig.KStatus && sc.Code != 0 {
+				res = res.With("buffer_exactly_at_limit")
+			}
 			mustNot, must := false, false
 			why := ""
 			retryCode := inCodes(pol, sc.Code)
